@@ -29,14 +29,15 @@ var c11FormName = []string{`"..."`, "`...`", `$"..."`, "$`...`"}
 
 // holes: variable name -> display form (decimal ints, strings verbatim, Go %v otherwise)
 var c11Holes = []struct{ name, display string }{
-	{"hi", "42"}, {"hs", "S t"}, {"hb", "true"}, {"hneg", "-7"}, {"hempty", ""}, {"hl", "[1 2 3]"}, {"hr", "{1 x}"}, {"ht", "{7 u}"}, {"hr.A", "1"}, {"hr.B", "x"},
+	{"hi", "42"}, {"hs", "S t"}, {"hb", "true"}, {"hneg", "-7"}, {"hempty", ""}, {"hl", "[1 2 3]"}, {"hr", "{1 x 9}"}, {"ht", "{7 u}"}, {"hr.A", "1"}, {"hr.B", "x"},
+	{"h_under", "70"}, {"_hlead", "lead"}, {"h2d", "22"}, {"H_UP", "up"}, {"hr.f_x", "9"}, {"h__", "dd"},
 }
 
 const c11Prelude = `
 import frt
 import strings
 
-type Rc = {A: int; B: string}
+type Rc = {A: int; B: string; f_x: int}
 
 let hi = 42
 let hs = "S t"
@@ -44,7 +45,12 @@ let hb = true
 let hneg = 0 - 7
 let hempty = ""
 let hl = [1; 2; 3]
-let hr = {A=1; B="x"}
+let hr = {A=1; B="x"; f_x=9}
+let h_under = 70
+let _hlead = "lead"
+let h2d = 22
+let H_UP = "up"
+let h__ = "dd"
 let ht = (7, "u")
 
 let frame (id:string) (s:string) =
